@@ -207,6 +207,7 @@ func TestVerifC14(t *testing.T) {
 	rep.Floor("totp_lockout_checked", 1)
 	rep.Floor("totp_overlap_checked", 2)
 	rep.Floor("totp_relogin_checked", 1)
+	rep.Floor("totp_simultaneous_rounds", 25)
 }
 
 func c14TOTP(t *testing.T, rep *verifReport) {
@@ -290,6 +291,60 @@ func c14TOTP(t *testing.T, rep *verifReport) {
 			}
 		}(i)
 	}
+	// many submissions of the currently valid code for one user at the same moment: at most one may be evaluated (an
+	// evaluated one answers 200, or 5xx when it loses the race to store the used code; a throttled one answers 401)
+	wg.Add(1)
+	go func() {
+		defer wg.Done()
+		// (the window between a non-atomic check and its store opens only when the limiter's lock is contended at the
+		// moment a waiter wakes: measured on a seeded change, about one round in four shows it)
+		rounds, n := 30, 48
+		if verifThorough() {
+			rounds = 200
+		}
+		for r := 0; r < rounds; r++ {
+			u := mk(fmt.Sprintf("sim%d", r))
+			if u == nil {
+				return
+			}
+			env.ShiftTOTPLimiter(u.name, 3*time.Second)
+			code := verifTOTPCode(u.secret, time.Now())
+			var evaluated, honoured int32
+			var wg2 sync.WaitGroup
+			start := make(chan struct{})
+			for k := 0; k < n; k++ {
+				wg2.Add(1)
+				go func() {
+					defer wg2.Done()
+					req := verifReq{Method: "POST", Path: "/api/v0/TOTPAuth", Form: url.Values{"OTP": {code}}, Cookies: verifCk(u.ck)}.Build()
+					<-start
+					resp := env.Do(req)
+					if resp.Code == 200 || resp.Code >= 500 {
+						atomic.AddInt32(&evaluated, 1)
+					}
+					if resp.Code == 200 {
+						atomic.AddInt32(&honoured, 1)
+					}
+				}()
+			}
+			stop := make(chan struct{})
+			env.ContendTOTPLimiter(8, stop) // other users' submissions competing for the limiter's lock
+			held := make(chan struct{})
+			go func() { // the submissions pile up at the limiter and pass it back to back
+				env.HoldTOTPLimiter(100*time.Millisecond, held)
+			}()
+			<-held
+			close(start)
+			wg2.Wait()
+			close(stop)
+			rep.Eval(fmt.Sprintf("totp|simultaneous|evaluated=%d|honoured=%d", min32(evaluated, 3), min32(honoured, 2)))
+			rep.Count("totp_simultaneous_rounds", 1)
+			if evaluated > 1 {
+				rep.Violate("C14/totp/simultaneous-guesses-all-evaluated", fmt.Sprintf("%d submissions for one user sent at the same moment: %d were evaluated (at most one per two seconds)", n, evaluated),
+					map[string]interface{}{"user": u.name, "submissions": n, "evaluated": evaluated, "honoured": honoured})
+			}
+		}
+	}()
 	// the spacing and the failure count belong to the user, not to the session: logging out and in again between a wrong
 	// guess and the next one changes nothing
 	wg.Add(1)
@@ -508,4 +563,11 @@ func c14TOTPOverlap(rep *verifReport) {
 			rep.Sample("totp-overlap", 1, c)
 		}
 	}
+}
+
+func min32(a int32, b int32) int32 {
+	if a < b {
+		return a
+	}
+	return b
 }
